@@ -137,8 +137,8 @@ Level3 == {ArrayS(MapS(ArrayS(PLong))), MapS(UnionS(<<PNull, ArrayS(PStr)>>)), A
            ArrayS(Prim("bytes")), MapS(Prim("double")), ArrayS(Prim("boolean")), MapS(FixedS("MF", 2)), ArrayS(UnionS(<<Prim("double"), PNull>>))}
 Universe == IF Size \in {"proj", "projfull"} THEN ProjUniverse ELSE IF Size = "quick" THEN Prims \cup {ArrayS(PLong), MapS(PStr), UnionS(<<PNull, PStr>>), UnionS(<<PLong, PNull>>),
                                                RecordS("R", <<FieldS("a", PLong), FieldS("b", PStr)>>), ArrayS(ArrayS(PLong)),
-                                               RecordS("R", <<FieldS("l", ArrayS(PLong)), FieldS("m", MapS(PStr)), FieldS("z", PLong)>>)}
-            ELSE Prims \cup Level1 \cup Level2 \cup Level3
+                                               RecordS("R", <<FieldS("l", ArrayS(PLong)), FieldS("m", MapS(PStr)), FieldS("z", PLong)>>), CaseRec}
+            ELSE Prims \cup Level1 \cup Level2 \cup Level3 \cup {CaseRec}
 
 Init == x \in {[s |-> s, d |-> NilD, e |-> <<>>] : s \in Universe} /\ ph = 0
 Next == \/ ph = 0 /\ x' \in {[s |-> x.s, d |-> d, e |-> <<>>] : d \in Datums(x.s)} /\ ph' = 1
